@@ -50,7 +50,7 @@ def state(lines, tag, tmem=True):
     return res
 
 
-def norm_dump(lines, tag):
+def norm_dump(lines, tag, skeleton=False):
     """the dump of one topology reduced to what hwloc_topology_diff_build compares: the tree shape (nesting level and
     child list of every object) and every field but logical_index and total_memory; topology-level lines as they are"""
     out = []
@@ -59,9 +59,16 @@ def norm_dump(lines, tag):
         if len(f) < 2 or f[1] != tag:
             continue
         if f[0] == "O":
-            out.append(" ".join(["O"] + f[2:5] + f[6:16] + f[17:]))
+            g = ["O"] + f[2:5] + f[6:16] + f[17:]
+            if skeleton:
+                # what a diff can carry is blanked: the value of a name (not whether it is set), info values, NUMA local memory
+                ninf = int(f[17])
+                g = ["O"] + f[2:5] + f[6:13] + ["-" if f[13] == "-" else "set", f[14]] + [f[17]] + [f[18 + 2 * k] for k in range(ninf)]
+            out.append(" ".join(g))
         elif f[0] == "T":
             out.append(" ".join(["T"] + f[3:]))          # nb_levels follows from the tree
+        elif f[0] == "TI" and skeleton:
+            out.append("TI " + f[2])
         elif f[0] in ("TI", "TD", "TM", "TMT", "TK"):
             out.append(" ".join([f[0]] + f[2:]))
     return out
@@ -227,6 +234,11 @@ def evaluate(case, clines, mlines):
             rb = next((l.split() for l in L if l.startswith("revbuild ")), None)
             if rc == 0 and n == 0 and not same_dumps:
                 viol.append(("build-zero-dumps-differ:" + case, "diff_build(A,B) returns 0 with a NULL diff but the dumps of A and B differ in what it compares"))
+            same_skel = norm_dump(clines, "A", True) == norm_dump(clines, "B", True)
+            if rc == 0 and not same_skel:
+                viol.append(("build-expressible-dumps-differ:" + case, "diff_build(A,B) returns 0 but the dumps differ in something a diff cannot carry"))
+            if rb is not None and int(rb[1]) == 0 and not same_skel:
+                viol.append(("build-expressible-dumps-differ:" + case, "diff_build(B,A) returns 0 but the dumps differ in something a diff cannot carry"))
             if rb is not None:
                 rrc, rn = int(rb[1]), int(rb[2])
                 if rrc == 0 and rn == 0 and not same_dumps:
